@@ -60,7 +60,7 @@ def base_checks(ctx, rep, cfgs, rid_prefix='G'):
                 # repository definitions are accepted on the reference tree; corpus definitions that get rejected are
                 # reported by the rule that owns them (twin groups) or by the shape coverage counters
                 rep.viol(rid, 'rejected:%s:%s' % (d.backend, dkey(d)), 'definition %s is rejected by the derive (compile_error) although the reference tree accepts it' % d.name, '%s line %d' % (d.label, d.line))
-            elif m is None:
+            elif m is None and not d.rejected:
                 rep.viol(rid, 'unsupported:%s:%s' % (d.backend, dkey(d)), 'generated code of %s is outside the analysable subset: %s' % (d.name, d.error), '%s line %d' % (d.label, d.line))
         rep.analysed.setdefault('definitions', {})[cfg] = n
 
@@ -717,6 +717,17 @@ def rules_c03(ctx, rep):
     controls(ctx, rep, ['G1', 'G4', 'G9c', 'G10', 'G11'])
 
 
+def rules_c04(ctx, rep):
+    """positions handed to lex.end are exactly the positions the walk has read up to: every transition consumes one position,
+    records are at offset / offset - 1 (necessary for ends to be the automaton's match ends, hence char boundaries)"""
+    cfgs = configs(ctx)
+    base_checks(ctx, rep, cfgs)
+    rule_transitions(ctx, rep, cfgs, want=('G1',))
+    rule_records(ctx, rep, cfgs, want=('G10', 'G7c'))
+    rule_error_action(ctx, rep, cfgs)
+    controls(ctx, rep, ['G1', 'G10', 'G6a'])
+
+
 def rules_c05(ctx, rep):
     cfgs = configs(ctx, forbid=True)
     base_checks(ctx, rep, cfgs)
@@ -889,3 +900,25 @@ def controls(ctx, rep, rids):
             bad = quiet.rules['G8a']['violations'] + quiet.rules['G8b']['violations']
             if bad:
                 rep.viol(crid, 'control-false-alarm:G8', 'the back end comparison fires on the unbroken base pair: %s' % bad[0]['msg'][:160])
+
+
+# ------------------------------------------------------------------------------------------------
+# G15: definitions that must be rejected
+# ------------------------------------------------------------------------------------------------
+
+def rule_must_reject(ctx, rep, cfgs, groups, floor):
+    rid = rep.rule('G15', 'definitions that cannot be implemented faithfully are rejected: every corpus definition in rejects::{%s} expands to compile_error! diagnostics (an accepted one would be mis-compiled)' % ','.join(groups), floor=floor)
+    for cfg in cfgs:
+        seen = 0
+        for d in ctx.gen(cfg):
+            if d.label != 'corpus' or not d.module.startswith('rejects::'):
+                continue
+            g = d.module.split('::')[1]
+            if g not in groups:
+                continue
+            seen += 1
+            rep.inst(rid, '%s:%s:%s' % (cfg, d.module, d.self_ty), detail=dict(rejected=d.rejected))
+            if not d.rejected:
+                rep.viol(rid, 'accepted:%s:%s:%s' % (d.backend, d.module, d.self_ty), 'definition %s::%s must be rejected (%s) but the derive generates a lexer for it' % (d.module, d.self_ty, g.replace('_', ' ')), 'corpus/src/rejects.rs')
+        if not seen:
+            rep.anchor(rid, 'corpus rejects::{%s} under %s' % (','.join(groups), cfg), False)
